@@ -108,10 +108,8 @@ func runCreate(slot int, e *event) string {
 		l = append(l, cluster.NodeInfo{RegID: uint64(k), ID: in.nodeID(k), NodeIP: nodeIP(slot, k),
 			HttpPort: strconv.Itoa(*port), RedisPort: strconv.Itoa(6000 + k)})
 	}
-	for i := 0; i < 2; i++ {
-		reg.feed <- l
-		<-reg.ack
-	}
+	<-reg.watchReady
+	reg.deliver(l)
 	coord.VerifDrainCheckChan()
 	// the placement oracle: what the placement function proposes for an empty register
 	probe := &cluster.PartitionMetaInfo{Name: nsName}
